@@ -208,7 +208,7 @@ class Engine:
             return "sat", s.model()
         return str(r), None
 
-    def second_opinion(self, goal, logic="QF_FP", tlimit_ms=600000):
+    def second_opinion(self, goal, logic="QF_FP", tlimit_ms=600000, get_values=()):
         """re-decide PC and not goal with cvc5 (python wheel) on the SMT-LIB text z3 prints; returns 'unsat' | 'sat' | 'unknown' |
         'error: ...'.  Used as a cross-check only (thorough tier); a disagreement makes the query inconclusive."""
         try:
@@ -220,11 +220,16 @@ class Engine:
             s.add(a)
         s.add(z3.Not(goal))
         text = "\n".join(l for l in s.to_smt2().split("\n") if not l.startswith("(set-info"))
+        if get_values:
+            text += "\n(get-value (%s))\n" % " ".join(get_values)
         t = time.time()
+        self.cvc5_values = None
         try:
             tm = cvc5.TermManager()
             slv = cvc5.Solver(tm)
             slv.setOption("tlimit", str(tlimit_ms))
+            if get_values:
+                slv.setOption("produce-models", "true")
             slv.setLogic(logic)
             parser = cvc5.InputParser(slv)
             parser.setStringInput(cvc5.InputLanguage.SMT_LIB_2_6, text, "query")
@@ -238,7 +243,12 @@ class Engine:
                 if r:
                     out.append(r)
             res = out[-1] if out else "unknown"
-            if "(error" in " ".join(out):
+            if get_values and len(out) >= 2 and out[0] in ("sat", "unsat", "unknown"):
+                res = out[0]
+                self.cvc5_values = out[1] if res == "sat" else None
+            elif get_values and out:
+                res = out[0]
+            if "(error" in " ".join(out) and res != "unsat":
                 res = "error: " + " ".join(out)[:200]
         except Exception as ex:
             res = "error: %s" % str(ex)[:200]
@@ -386,7 +396,7 @@ def explore(fn, workers=None, timeout_ms=20000, chunk=40, max_paths=None, deadli
             if keep is None or keep(r):
                 ex.results.append(r)
             else:
-                ex.results.append({"status": r["status"]})
+                ex.results.append({k: r[k] for k in ("status", "validated_against_impl") if k in r})
         ex.stats.update(stats)
         ex.solver_s += ss
         ex.paths += np_
